@@ -26,7 +26,37 @@ fn main() {
         opt.insert(args[i].trim_start_matches("--").to_string(), args[i + 1].clone());
         i += 2;
     }
-    let code = match cmd.as_str() {
+    // run the command on a worker; abort with exit code 4 when a call into the
+    // implementation does not return (hang) - the description of the case goes to stdout
+    let cmd2 = cmd.clone();
+    let (tx, rx) = std::sync::mpsc::channel();
+    common::tick_global("start");
+    std::thread::Builder::new().stack_size(256 << 20).spawn(move || {
+        common::install_panic_hook();
+        let code = run_cmd(&cmd2, &opt);
+        let _ = tx.send(code);
+    }).unwrap();
+    let limit = std::time::Duration::from_secs(45);
+    loop {
+        match rx.recv_timeout(std::time::Duration::from_millis(200)) {
+            Ok(code) => std::process::exit(code),
+            Err(std::sync::mpsc::RecvTimeoutError::Timeout) => {
+                let g = common::PROGRESS.lock().unwrap();
+                if let Some((t, what)) = &*g {
+                    if t.elapsed() > limit {
+                        println!("HANG: no return within {} s from: {}", limit.as_secs(), what);
+                        std::process::exit(4);
+                    }
+                }
+            }
+            Err(_) => { eprintln!("worker died"); std::process::exit(3); }
+        }
+    }
+}
+
+fn run_cmd(cmd: &str, opt: &HashMap<String, String>) -> i32 {
+    let opt = opt.clone();
+    let code = match cmd {
         "algo" => streams::stream_algo(&opt),
         "shape" => streams::stream_shape(&opt),
         "hist" => streams::stream_hist(&opt),
@@ -38,5 +68,5 @@ fn main() {
         "cliexpect" => cli::run(&opt),
         _ => { eprintln!("unknown command {}", cmd); 2 }
     };
-    std::process::exit(code);
+    code
 }
